@@ -401,7 +401,9 @@ func (m *machine) addFunctions(t *rapid.T, e *entM, f *featM, target api.Feature
 // AddFeature, or through GetOrAddFeature.
 func (m *machine) newFeature(t *rapid.T, e *entM, label string) string {
 	typ := drawType(t)
-	role := rapid.SampledFrom([]model.RoleType{model.RoleTypeServer, model.RoleTypeServer, model.RoleTypeClient}).Draw(t, label+".role")
+	// (a feature of the role special is rare outside node management but nothing forbids it; it is a feature of
+	// its own type-and-role and stands for neither the client nor the server feature of its type)
+	role := rapid.SampledFrom([]model.RoleType{model.RoleTypeServer, model.RoleTypeServer, model.RoleTypeClient, model.RoleTypeServer, model.RoleTypeServer, model.RoleTypeClient, model.RoleTypeSpecial}).Draw(t, label+".role")
 	existing := e.find(typ, role)
 	if rapid.IntRange(0, 2).Draw(t, label+".viaGetOrAdd") == 0 {
 		f := e.obj.GetOrAddFeature(typ, role)
@@ -703,6 +705,16 @@ func (m *machine) pickEntity(t *rapid.T) *entM {
 
 func (m *machine) addFeature(t *rapid.T) {
 	e := m.pickEntity(t)
+	if rapid.IntRange(0, 7).Draw(t, "onDeviceInformationEntity") == 0 {
+		// the application may give the device information entity [0] features of its own, next to the
+		// stack's node management and device classification features
+		for _, x := range m.ents {
+			if x.fixed {
+				e = x
+				world.Label("addFeature/on-entity-0")
+			}
+		}
+	}
 	m.mutated(m.newFeature(t, e, "feat"))
 }
 
@@ -1025,6 +1037,7 @@ func (m *machine) snapshotEntityZero(t *rapid.T) {
 			fm.funcs[fn] = opsM{read: o.Read(), readPartial: o.ReadPartial(), write: o.Write(), writePartial: o.WritePartial()}
 		}
 		e.feats = append(e.feats, fm)
+		e.handed[fm.id] = true // the numbers of the stack's own features of entity [0] are taken
 	}
 	nm := e.find(model.FeatureTypeTypeNodeManagement, model.RoleTypeSpecial)
 	if nm == nil || nm.id != 0 || !nm.funcs[model.FunctionTypeNodeManagementDetailedDiscoveryData].read || e.typ != model.EntityTypeTypeDeviceInformation {
